@@ -85,7 +85,7 @@ static void program_case(unsigned prog, int len, int big_ok) {
         viol("history", "%s [N=%" PRIu64 " %s seed=%" PRIu64 " shape=%s]: call #%d returned different bits than the equal-argument call #%u (pre-fill %d, byte offset class %u, %d unrelated calls in between)", o->name, e->N, ws[w].native ? "native" : "generic", ws[w].seed, res.shape, pos, h->first_pos, prefill, mis, pos - (int)h->first_pos - 1);
     }
     // table-based twin on identical arguments
-    if (o->twin) {
+    if (o->twin && (o->flags & OPF_SIMPLE)) {  // (ref/accelerated twins legitimately differ in the last bits: that pair is C07's)
       int ti = op_find(o->twin);
       if (ti >= 0) {
         opres_t tw;
